@@ -4,12 +4,27 @@ Real code under test: torchsnapshot.manifest_ops.{get_manifest_for_rank, handle_
 _get_manifest_for_existing_rank, _get_manifest_for_new_rank, _get_rank_to_manifest,
 _get_merged_sharded_tensor_entries, _remove_entry), partitioner.consolidate_replicated_entries and flatten.flatten /
 flatten.inflate around them, and end to end Snapshot.take / Snapshot.restore / get_state_dict_for_key / read_object in
-the simulated multi-rank world (lib.world).  Model: coq/model/ManifestOps.v.
+the simulated multi-rank world (lib.world).
 
-NOT modelled / not exercised (also stated in the model header):
-  * DTensorEntry (device-mesh partial replication) - out of scope of this check;
-  * the root-only elasticity knob (TORCHSNAPSHOT_ENABLE_SHARDED_TENSOR_ELASTICITY_ROOT_ONLY, default off);
-  * negative rank arguments and rank prefixes >= world_size;
+Two models.  (1) The hand model coq/model/ManifestOps.v (paths as token lists, entries as values), about which the
+property theorems are proved.  (2) gen/ManifestOpsGen.v: manifest_ops.py and the predicates of manifest_utils.py
+regenerated STATEMENT BY STATEMENT from the current source on every run by translator/gen_manifest_ops.py, over the
+Python-object vocabulary of coq/model/ManifestPy.v (global paths are strings, dicts are insertion-ordered association
+lists of entry addresses, entry objects live in a heap so that in-place edits of DictEntry.keys and copy.deepcopy mean
+what they mean in Python).  proofs/ManifestOpsGenInst.v proves per run (a) that computing any sequence of views from one
+metadata object never writes to the metadata's own entry objects, and (b) that on well-formed metadata the generated
+functions compute exactly the hand model; coq/props/C07.v restates the property theorems over the generated functions.
+Both models are compared with the real code on every run.
+
+NOT modelled / not exercised (also stated in the model headers):
+  * DTensorEntry in the THEOREMS (the generated code contains _get_merged_dtensor_entries and is compared with the real
+    code on DTensor metadata, but the hand model and hence the theorems assume there is no DTensorEntry); numpy's mesh
+    slicing (_get_replicated_ranks) and _ReplicatedShards are hand-modelled (ManifestPy.np_replicated_ranks / rs_lookup;
+    the translator pins their source text and fails closed when it changes);
+  * the root-only elasticity knob in the THEOREMS (translated as a parameter and exercised in the correspondences;
+    the theorems about elasticity are for the default, off; the non-mutation theorem holds for both settings);
+  * negative rank arguments and rank prefixes >= world_size in the hand model (the generated model follows Python's
+    negative indexing and raises as the code does; both are compared with the real code);
   * sharded tensors END TO END (they need a process group): they are covered at the manifest level in part (a)
     (real ShardedTensorEntry / Shard objects through the real manifest operations and the real inflate) and their
     data path by C08;
@@ -35,8 +50,24 @@ CORRESPONDENCES = [
     "manifest:perturbed-metadata~model",
     "wf:gathered-manifest~wf_globalb",
     "e2e:take-metadata/get_manifest_for_rank~model",
+    "generated:model/ManifestOpsGenObs.v builds on the generated terms",
+    "generated:views-from-one-metadata-object~g_get_manifest_for_rank+g_handle_sharded_tensor_elasticity",
+    "generated:perturbed-and-dtensor-metadata~generated",
+    "generated:_remove_entry~g_remove_entry",
+    "generated:manifest_utils-predicates~generated",
+    "hand-modelled:_get_replicated_ranks/_ReplicatedShards~np_replicated_ranks/rs_lookup",
+    "e2e:take-metadata/views~generated",
 ]
-RULE = ("(a) synthetic snapshots: W in 1..6, 1-2 stateful keys, nested dict/OrderedDict/list structures (depth <= 4) whose "
+RULE = ("(g) the generated terms (gen/ManifestOpsGen.v, evaluated by vm_compute inside coqc) against the real code: for every "
+        "synthetic scenario of (a) the same queries run one after the other - new ranks first or shuffled - on ONE metadata "
+        "object (per query: error outcome, the view after handle_sharded_tensor_elasticity in dict order with every entry's "
+        "class, typed keys, replicated flag, shards, and merged_sd_entries; at the end the metadata object's own manifest); "
+        "perturbed metadata; metadata with DTensorEntry leaves over 1-D/2-D/3-D meshes (sharded, partially, fully replicated) "
+        "incl. negative rank arguments and the root-only knob on/off; malformed rank prefixes ('x1/..', '7/..', '-1/..', "
+        "'+1/..', '01/..', no slash, empty logical path); _remove_entry called directly (absent path, root-level path, "
+        "missing parent, twice); the six predicates of manifest_utils on entries of every class; the hand-modelled "
+        "_get_replicated_ranks / _ReplicatedShards on random meshes and dim_maps; the metadata written by real takes. "
+        "(a) synthetic snapshots: W in 1..6, 1-2 stateful keys, nested dict/OrderedDict/list structures (depth <= 4) whose "
         "leaves are replicated (all ranks, TensorEntry/PrimitiveEntry/ObjectEntry with replicated=True), private (per-rank "
         "subsets, replicated=False incl. ChunkedTensorEntry) or sharded (ShardedTensorEntry with 1-3 Shards per rank, "
         "offsets colliding across ranks), per-rank extra keys / sub-containers / list tails, per-rank key rotations, keys "
@@ -53,8 +84,17 @@ RULE = ("(a) synthetic snapshots: W in 1..6, 1-2 stateful keys, nested dict/Orde
         "when its snapshot holds at least one replicated and one private leaf; distinct by content hash.")
 TRUSTED = [
     "Coq 8.16.1 kernel and its vm_compute VM (no native_compute)",
-    "hand-written model coq/model/ManifestOps.v (+ model/Flatten.v for typed keys, str(key), _encode/_decode) tied to the "
-    "code by differential runs (this harness)",
+    "translator/gen_manifest_ops.py (Python ast -> Gallina, fail closed; every function of manifest_ops.py, the predicates of "
+    "manifest_utils.py, the attribute table of manifest.py's entry classes; class hierarchy from translator/gen_dispatch.py) and "
+    "the vocabulary it targets, coq/model/ManifestPy.v: insertion-ordered dicts, a heap of entry objects, copy.deepcopy "
+    "(copies every reachable entry once, keeps sharing), list.remove / list.append on DictEntry.keys as heap writes, "
+    "Python's negative list indices, exceptions as None; hand-modelled there and compared on every run: numpy mesh slicing "
+    "(_get_replicated_ranks), _ReplicatedShards, int() as [+-]?[0-9]+, urllib unquote below 0x80",
+    "the abstraction of proofs/ManifestPySim.v (absG / absD / absE: strings split at '/', rank prefix parsed, entry classes "
+    "mapped to container / replicated / private / sharded) through which the theorems about the hand model are read as "
+    "theorems about the generated functions",
+    "hand-written model coq/model/ManifestOps.v (+ model/Flatten.v for typed keys, str(key), _encode/_decode): now only the "
+    "SPECIFICATION the generated functions are proved equal to (and still compared with the code by differential runs)",
     "harness/props/C07.py generators, canonicalisation (entries -> first-occurrence ids by dataclass repr) and lib/tocoq.py",
     "lib/world.py (ranks as threads, PGWrapper collectives patched) for the end-to-end part; CPython dict ordering, "
     "list.remove, sorted (stable) and urllib unquote are runtime: modelled and compared on every run, not verified",
@@ -64,13 +104,18 @@ ASSUMPTIONS = [
     "under Python equality and under str(), every non-root entry has its parent container in the same rank's manifest "
     "listing its key, replicated leaves appear once and under rank 0 only, app_state keys are non-empty - evaluated by "
     "the model on every real manifest of this run (flatten + consolidate_replicated_entries, and Snapshot.take)",
-    "DTensor entries are absent; the root-only elasticity knob is off",
+    "for the theorems that go through the hand model: DTensor entries are absent (meta_ok) and the root-only elasticity "
+    "knob is off; the entries of a metadata object are pairwise distinct objects (what from_yaml / _gather_manifest build). "
+    "C07_generated_views_do_not_mutate_metadata assumes none of this",
     "a rank requests a sharded tensor only below containers it saved itself (new ranks: below rank 0's containers) - the "
     "limitation documented in handle_sharded_tensor_elasticity",
     "replicated values are equal on all ranks at take time (the user's promise behind `replicated=`)",
 ]
 
 IMPORTS = "From TS Require Import model.Flatten model.ManifestOps.\n"
+GEN_IMPORTS = ("From TS Require Import model.Flatten model.ManifestOps model.Dispatch model.ManifestPy "
+               "model.ManifestOpsGenObs.\n")
+GEN_OK = {"ok": False, "detail": "not built"}
 
 SIG_ESC = "C07:elasticity-add:escaped-key-not-delivered"
 SIG_RETYPE = "C07:elasticity-add:nonstr-key-retyped"
@@ -801,6 +846,7 @@ def record(res, fails, replay):
 def check_synthetic(ctx: Ctx, res: Result, with_model: bool):
     rng = ctx.rng
     c_get, c_view, c_wf, c_mal_get, c_mal_view = [], [], [], [], []
+    c_gen, c_gen_mal = [], []
     meta, meta_mal = [], []
     for origin, spec in synthetic_specs(ctx):
         sc = Scenario(spec)
@@ -839,6 +885,10 @@ def check_synthetic(ctx: Ctx, res: Result, with_model: bool):
         meta.append(spec)
         for v in views:
             res.count("a.view_outcome", "exception" if v is None else "manifest")
+        if GEN_OK["ok"]:
+            # the generated terms: the same queries, new ranks first or shuffled, on ONE metadata object
+            order = list(reversed(queries)) if len(c_gen) % 2 == 0 else rng.sample(queries, len(queries))
+            c_gen.append(gen_views_case(sc.metadata, uid, order, False))
         # perturbed metadata: correspondence only (the well-formedness the theorems assume does not hold)
         if origin == "random" and rng.random() < 0.6:
             tag, md2 = perturb(rng, sc.metadata)
@@ -855,6 +905,8 @@ def check_synthetic(ctx: Ctx, res: Result, with_model: bool):
             c_mal_get.append((inp2, val(gets2)))
             c_mal_view.append((inp2, val(views2)))
             meta_mal.append((tag, spec))
+            if GEN_OK["ok"]:
+                c_gen_mal.append(gen_views_case(md2, uid2, q2, False))
     if not with_model:
         return
     ty = "Z * gman * list (Z * list path)"
@@ -870,6 +922,359 @@ def check_synthetic(ctx: Ctx, res: Result, with_model: bool):
         for i in bad:
             res.mismatches.append(Mismatch(name, {"case": mt[i], "input": cases[i][0][:1500]}, cases[i][1][:1500], None))
         res.traces_validated += len(cases)
+    run_gen(res, CORRESPONDENCES[6], "C07_gv", "obs_views_gen", c_gen, GEN_VIEWS_TY, meta, shard=20)
+    run_gen(res, CORRESPONDENCES[7], "C07_gmal", "obs_views_gen", c_gen_mal, GEN_VIEWS_TY, meta_mal, shard=20)
+
+
+# =========================================================================== the generated terms (gen/ManifestOpsGen.v)
+# The functions regenerated from manifest_ops.py / manifest_utils.py work on strings (global paths "<rank>/<logical path>"),
+# on insertion-ordered dicts and on entry OBJECTS in a heap: an input is the metadata object's manifest, item by item
+# (path string, entry object), and a sequence of queries that are run one after the other on that ONE metadata object -
+# exactly what a Snapshot object does for several restore / read calls.
+ECLS = {"Entry": (0, "EEntry"), "TensorEntry": (1, "ETensor"), "ShardedTensorEntry": (2, "ESharded"),
+        "ChunkedTensorEntry": (3, "EChunked"), "DTensorEntry": (4, "EDTensor"), "ObjectEntry": (5, "EObject"),
+        "ListEntry": (6, "EList"), "DictEntry": (7, "EDict"), "OrderedDictEntry": (8, "EOrderedDict"),
+        "PrimitiveEntry": (9, "EPrimitive")}
+
+
+def zl(xs):
+    return "[" + "; ".join(f"({int(x)})" if int(x) < 0 else str(int(x)) for x in xs) + "]"
+
+
+def mesh_of(e):
+    import numpy as np
+    a = np.array(e.mesh)
+    return [int(x) for x in a.shape], [int(x) for x in a.flatten()]
+
+
+def pentry_parts(e, uid):
+    name = type(e).__name__
+    if name not in ECLS:
+        raise TypeError(f"not an entry class: {name}")
+    keys = list(e.keys) if name in ("DictEntry", "OrderedDictEntry") else []
+    has_repl = name in ("TensorEntry", "ChunkedTensorEntry", "ObjectEntry", "PrimitiveEntry")
+    repl = bool(e.replicated) if has_repl else False
+    if has_repl and e.replicated not in (True, False):
+        raise TypeError("non-bool replicated")
+    shards = list(e.shards) if name in ("ShardedTensorEntry", "DTensorEntry") else []
+    dim_map = [list(d) for d in e.dim_map] if name == "DTensorEntry" else []
+    shape, flat = mesh_of(e) if name == "DTensorEntry" else ([], [])
+    ident = uid(e) if has_repl else 0
+    return name, keys, has_repl, repl, shards, dim_map, shape, flat, ident
+
+
+def pentry_term(e, uid):
+    name, keys, has_repl, repl, shards, dim_map, shape, flat, ident = pentry_parts(e, uid)
+    return ("(mkE Dispatch." + ECLS[name][1] + " [" + "; ".join(key_term(k) for k in keys) + "] " + ("true" if repl else "false") +
+            " [" + "; ".join(f"({zl(sh.offsets)}, {uid(sh)})" for sh in shards) + "] [" + "; ".join(zl(d) for d in dim_map) +
+            f"] ({zl(shape)}, {zl(flat)}) {ident})")
+
+
+def pentry_obs(e, uid):
+    name, keys, has_repl, repl, shards, dim_map, shape, flat, ident = pentry_parts(e, uid)
+    return [ECLS[name][0], [key_obs(k) for k in keys], (int(repl) if has_repl else -1),
+            [[list(sh.offsets), uid(sh)] for sh in shards], dim_map, shape, flat, ident]
+
+
+def items_term(d, uid):
+    return "[" + ";\n   ".join(f"({s_term(p)}, {pentry_term(e, uid)})" for p, e in d.items()) + "]"
+
+
+def items_obs(d, uid):
+    return [[[ord(c) for c in p], pentry_obs(e, uid)] for p, e in d.items()]
+
+
+def set_knob(on):
+    import os
+    name = "TORCHSNAPSHOT_ENABLE_SHARDED_TENSOR_ELASTICITY_ROOT_ONLY"
+    old = os.environ.get(name)
+    if on:
+        os.environ[name] = "1"
+    else:
+        os.environ.pop(name, None)
+    return old
+
+
+def restore_knob(old):
+    import os
+    name = "TORCHSNAPSHOT_ENABLE_SHARDED_TENSOR_ELASTICITY_ROOT_ONLY"
+    if old is None:
+        os.environ.pop(name, None)
+    else:
+        os.environ[name] = old
+
+
+GEN_STATS = {}
+
+
+def gen_views_case(md, uid, queries, knob):
+    """(model input, expected observation): the real get_manifest_for_rank + handle_sharded_tensor_elasticity for every
+    query in turn on ONE private copy of the metadata object, then that object's manifest"""
+    from torchsnapshot.manifest_ops import get_manifest_for_rank, handle_sharded_tensor_elasticity
+    md = copy.deepcopy(md)
+    inp_items = items_term(md.manifest, uid)
+    results = []
+    old = set_knob(knob)
+    try:
+        for rank, reqs in queries:
+            try:
+                m, merged = get_manifest_for_rank(metadata=md, rank=rank)
+            except Exception:  # noqa
+                results.append([0])
+                continue
+            before = items_obs(m, uid)
+            try:
+                handle_sharded_tensor_elasticity(manifest=m, merged_sd_entries=merged, tensor_requests=list(reqs))
+                results.append([2, items_obs(m, uid), items_obs(merged, uid)])
+            except Exception:  # noqa
+                results.append([1, before, items_obs(merged, uid)])
+    finally:
+        restore_knob(old)
+    for (rank, _), r in zip(queries, results):
+        k = (("negative" if rank < 0 else "existing" if rank < md.world_size else "new") + "-rank:" +
+             ["get_manifest_for_rank raised", "elasticity raised", "view"][r[0]])
+        GEN_STATS[k] = GEN_STATS.get(k, 0) + 1
+    qs = "[" + "; ".join(f"({r}, [" + "; ".join(s_term(p) for p in reqs) + "])" for r, reqs in queries) + "]"
+    inp = f"({md.world_size}, {inp_items}, {qs}, {'true' if knob else 'false'})"
+    return inp, val([results, items_obs(md.manifest, uid)])
+
+
+GEN_VIEWS_TY = "Z * list (pystr * pentry) * list (Z * list pystr) * bool"
+
+
+def dtensor_metadata(rng):
+    """synthetic metadata with DTensorEntry leaves (1-D / 2-D device meshes; sharded, partially and fully replicated),
+    next to a ShardedTensorEntry, a replicated and a private leaf"""
+    from torchsnapshot.manifest import (DictEntry, DTensorEntry, PrimitiveEntry, Shard, ShardedTensorEntry, SnapshotMetadata,
+                                        TensorEntry)
+
+    def te(loc, rep=False):
+        return TensorEntry(location=loc, serializer="buffer_protocol", dtype="torch.float32", shape=[2], replicated=rep)
+    shape = rng.choice([(2,), (3,), (4,), (2, 2), (2, 3), (3, 2), (2, 2, 2)])
+    W = 1
+    for d in shape:
+        W *= d
+    perm = list(range(W))
+    if rng.random() < 0.3:
+        rng.shuffle(perm)
+    import numpy as np
+    mesh = np.array(perm).reshape(shape).tolist()
+    nd = len(shape)
+    options = {1: [[[0]], [[-1]], [[0], [-1]], [[-1], [0]], [[-1], [-1]]],
+               2: [[[0], [1]], [[0], [-1]], [[-1], [1]], [[0, 1]], [[-1], [-1]], [[1], [0]], [[1]], [[-1], [0, 1]]],
+               3: [[[0], [1], [2]], [[0], [-1]], [[2], [-1]], [[0, 2]], [[-1]], [[1], [0, 2]], [[1, 2]]]}[nd]
+    npaths = rng.choice([1, 2])
+    dim_maps = [rng.choice(options) for _ in range(npaths)]
+    holders = [sorted(rng.sample(range(W), rng.randint(1, W))) if rng.random() < 0.3 else list(range(W)) for _ in range(npaths)]
+    man = {}
+    for r in range(W):
+        keys = ["rep", "priv"] + [f"dt{i}" for i in range(npaths) if r in holders[i]] + (["sh"] if r % 2 == 0 else [])
+        man[f"{r}/m"] = DictEntry(keys=keys)
+        if r == 0:
+            man[f"{r}/m/rep"] = PrimitiveEntry("int", "7", True)
+        man[f"{r}/m/priv"] = te(f"{r}/m/priv")
+        for i in range(npaths):
+            if r in holders[i]:
+                man[f"{r}/m/dt{i}"] = DTensorEntry(
+                    shards=[Shard(offsets=[rng.choice([0, r, 2 * r]), j], sizes=[1, 1], tensor=te(f"sharded/m/dt{i}_{r}_{j}"))
+                            for j in range(rng.choice([1, 1, 2]))], mesh=mesh, dim_map=dim_maps[i])
+        if r % 2 == 0:
+            man[f"{r}/m/sh"] = ShardedTensorEntry(shards=[Shard(offsets=[r], sizes=[1], tensor=te(f"sharded/m/sh_{r}"))])
+    items = list(man.items())
+    if rng.random() < 0.3:
+        rng.shuffle(items)
+    md = SnapshotMetadata(version="0.0.0", world_size=W, manifest=dict(items))
+    reqs_pool = [f"m/dt{i}" for i in range(npaths)] + ["m/sh", "m/rep", "m/nowhere"]
+    queries = [(r, rng.sample(reqs_pool, rng.randint(0, len(reqs_pool)))) for r in rng.sample(range(-1, W + 2), min(W + 3, 4))]
+    return md, queries, f"mesh{shape}:{dim_maps}"
+
+
+def string_level_perturb(rng, md):
+    """perturbations that only the string-level (generated) model can express: the rank prefix of a global path"""
+    from torchsnapshot.manifest import SnapshotMetadata
+    man = copy.deepcopy(md.manifest)
+    paths = list(man)
+    if not paths:
+        return None
+    p = rng.choice(paths)
+    rk, _, logical = p.partition("/")
+    tag = rng.choice(["bad-rank", "rank-out-of-range", "negative-rank", "no-slash", "plus-rank", "leading-zero", "shared-object",
+                      "empty-logical"])
+    e = man.pop(p)
+    if tag == "bad-rank":
+        man[f"x{rk}/{logical}"] = e
+    elif tag == "rank-out-of-range":
+        man[f"{md.world_size + rng.choice([0, 1, 5])}/{logical}"] = e
+    elif tag == "negative-rank":
+        man[f"-{rng.randint(1, md.world_size + 1)}/{logical}"] = e
+    elif tag == "no-slash":
+        man[rk] = e
+    elif tag == "plus-rank":
+        man[f"+{rk}/{logical}"] = e
+    elif tag == "leading-zero":
+        man[f"0{rk}/{logical}"] = e
+    elif tag == "empty-logical":
+        man[f"{rk}/"] = e
+    else:
+        man[p] = e
+    return tag, SnapshotMetadata(version="0.0.0", world_size=md.world_size, manifest=man)
+
+
+def gen_remove_cases(rng, md, uid, k):
+    """_remove_entry called directly on copies of the per-rank manifests"""
+    from torchsnapshot.manifest_ops import _get_rank_to_manifest, _remove_entry
+    from torchsnapshot.manifest_utils import is_container_entry
+    out = []
+    try:
+        rtm = _get_rank_to_manifest(metadata=md)
+    except Exception:  # noqa
+        return out
+    for _ in range(k):
+        m = copy.deepcopy(rng.choice(rtm))
+        paths = list(m)
+        if not paths:
+            continue
+        mode = rng.choice(["leaf", "leaf", "any", "bogus", "orphan", "twice"])
+        p = rng.choice(paths)
+        if mode == "leaf":
+            leaves = [q for q in paths if not is_container_entry(m[q])]
+            p = rng.choice(leaves) if leaves else p
+        elif mode == "bogus":
+            p = rng.choice(["m/nowhere", "", "/", p + "/x", p.rpartition("/")[0] + "/"])
+        elif mode == "orphan":
+            parent = p.rpartition("/")[0]
+            m.pop(parent, None)
+        elif mode == "twice":
+            try:
+                _remove_entry(manifest=m, logical_path=p)
+            except Exception:  # noqa
+                pass
+        inp = f"({items_term(m, uid)}, {s_term(p)})"
+        try:
+            _remove_entry(manifest=m, logical_path=p)
+            exp = [items_obs(m, uid)]
+        except Exception:  # noqa
+            exp = None
+        out.append((inp, val(exp), mode))
+    return out
+
+
+def gen_predicate_cases(entries, uid):
+    from torchsnapshot import manifest_utils as mu
+    fns = [mu.is_dict_entry, mu.is_container_entry, mu.is_fully_replicated_entry, mu.is_partially_replicated_entry,
+           mu.is_replicated_entry, mu.is_sharded_entry]
+    out = []
+    for e in entries:
+        exp = []
+        for f in fns:
+            try:
+                exp.append([bool(f(e))])
+            except Exception:  # noqa
+                exp.append(None)
+        out.append((pentry_term(e, uid), val(exp)))
+    return out
+
+
+def gen_replicated_ranks_cases(rng, n):
+    """the two hand-modelled pieces against the real _get_replicated_ranks / _ReplicatedShards"""
+    import numpy as np
+    from torchsnapshot.dtensor_utils import _ReplicatedShards
+    from torchsnapshot.manifest import DTensorEntry
+    from torchsnapshot.manifest_utils import _get_replicated_ranks
+    out = []
+    shapes = [(1,), (2,), (3,), (4,), (2, 2), (2, 3), (3, 2), (1, 3), (2, 2, 2), (2, 1, 3), (3, 2, 2)]
+    for _ in range(n):
+        shape = rng.choice(shapes)
+        W = int(np.prod(shape))
+        perm = list(range(W))
+        if rng.random() < 0.4:
+            rng.shuffle(perm)
+        mesh = np.array(perm).reshape(shape).tolist()
+        nd = len(shape)
+        dim_map = []
+        for _ in range(rng.randint(1, 3)):
+            if rng.random() < 0.4:
+                dim_map.append([-1])
+            else:
+                dim_map.append(sorted(rng.sample(range(nd), rng.randint(1, nd))) if rng.random() < 0.8 else [rng.randrange(nd)])
+        e = DTensorEntry(shards=[], mesh=mesh, dim_map=dim_map)
+        rr = _get_replicated_ranks(entry=e)
+        rs = _ReplicatedShards(replicated_ranks_for_shards=rr)
+        ranks = list(range(-1, W + 1))
+        exp = [[sorted(int(x) for x in s) for s in rr], [sorted(int(x) for x in rs.get_all_replicated_ranks(r)) for r in ranks]]
+        shp, flat = mesh_of(e)
+        out.append((f"(({zl(shp)}, {zl(flat)}), [" + "; ".join(zl(d) for d in dim_map) + f"], {zl(ranks)})", val(exp)))
+    return out
+
+
+def run_gen(res, name, tag, fn, cases, in_type, meta=None, shard=25):
+    if not GEN_OK["ok"] or not cases:
+        return
+    bad, errs = coqrun.run_cases(tag, GEN_IMPORTS, fn, [(c[0], c[1]) for c in cases], shard=shard, in_type=in_type)
+    for e in errs:
+        res.mismatches.append(Mismatch(name, "coqc error", None, e))
+    for i in bad:
+        res.mismatches.append(Mismatch(name, {"case": (meta[i] if meta else None), "input": cases[i][0][:1500]}, cases[i][1][:1500], None))
+    res.traces_validated += len(cases)
+
+
+def build_gen_model(res):
+    """the observation functions over the generated terms are built on their own, so that they run (and the
+    correspondences are evaluated) also when an instantiation proof over the same terms no longer checks"""
+    ok, out, _ = coqrun.make(["model/ManifestOpsGenObs.vo"], timeout=600, jobs=4)
+    GEN_OK["ok"], GEN_OK["detail"] = ok, "" if ok else f"{coqrun.failing_file(out)}: {coqrun.error_excerpt(out, 12)}"
+    if not ok:
+        res.mismatches.append(Mismatch(CORRESPONDENCES[5], "make model/ManifestOpsGenObs.vo", None, GEN_OK["detail"]))
+
+
+def check_generated_extra(ctx: Ctx, res: Result):
+    """inputs only the generated (string / object level) terms can take: DTensor entries, malformed rank prefixes,
+    the knob, direct _remove_entry calls, the predicates, the hand-modelled mesh slicing"""
+    if not GEN_OK["ok"]:
+        return
+    rng = ctx.rng
+    cases, meta = [], []
+    entries = []
+    for _ in range(ctx.n(40, 400)):
+        md, queries, what = dtensor_metadata(rng)
+        uid = Uids()
+        knob = rng.random() < 0.3
+        try:
+            cases.append(gen_views_case(md, uid, queries, knob))
+        except TypeError:
+            continue
+        meta.append({"kind": "dtensor", "what": what, "knob": knob})
+        res.count("g.dtensor_mesh", what.split(":")[0])
+        entries += [e for e in md.manifest.values() if type(e).__name__ == "DTensorEntry"][:2]
+    rm_cases = []
+    for i in range(ctx.n(40, 400)):
+        sc = Scenario(Gen(rng, rng.choice([1, 2, 3, 4])).spec())
+        uid = Uids()
+        got = string_level_perturb(rng, sc.metadata)
+        if got is not None:
+            tag, md2 = got
+            queries = [(r, pick_requests(rng, sc, r)) for r in rng.sample(range(-2, sc.W + 2), min(sc.W + 4, 3))]
+            try:
+                cases.append(gen_views_case(md2, uid, queries, rng.random() < 0.2))
+                meta.append({"kind": "string-level-perturbation", "tag": tag, "spec": sc.spec})
+                res.count("g.string_perturbation", tag)
+            except TypeError:
+                pass
+        for c in gen_remove_cases(rng, sc.metadata, uid, 3):
+            rm_cases.append(c)
+            res.count("g.remove_entry_mode", c[2])
+        if i % 4 == 0:
+            entries += list(sc.metadata.manifest.values())[:6]
+    run_gen(res, CORRESPONDENCES[7], "C07_gx", "obs_views_gen", cases, GEN_VIEWS_TY, meta, shard=20)
+    run_gen(res, CORRESPONDENCES[8], "C07_grm", "obs_remove_entry_gen", rm_cases, "list (pystr * pentry) * pystr", None, shard=60)
+    from torchsnapshot.manifest import DTensorEntry, Entry, ListEntry
+    entries += [Entry(type="x"), ListEntry(), DTensorEntry(shards=[], mesh=[0, 1], dim_map=[]),
+                DTensorEntry(shards=[], mesh=[[0, 1], [2, 3]], dim_map=[[-1], [0]]),
+                DTensorEntry(shards=[], mesh=[[0, 1], [2, 3]], dim_map=[[-1], [-1]]),
+                DTensorEntry(shards=[], mesh=[[0, 1], [2, 3]], dim_map=[[0], [1]])]
+    run_gen(res, CORRESPONDENCES[9], "C07_gpred", "obs_predicates_gen", gen_predicate_cases(entries, Uids()), "pentry", None, shard=200)
+    run_gen(res, CORRESPONDENCES[10], "C07_grr", "obs_replicated_ranks", gen_replicated_ranks_cases(rng, ctx.n(60, 400)),
+            "mesh * list (list Z) * list Z", None, shard=200)
 
 
 # =========================================================================== (b) end to end in the simulated world
@@ -1121,7 +1526,7 @@ def e2e_pairs(ctx: Ctx):
 
 def check_e2e(ctx: Ctx, res: Result, with_model: bool):
     rng = ctx.rng
-    c_get, c_wf, meta = [], [], []
+    c_get, c_wf, meta, c_gen = [], [], [], []
     for (W, W2) in e2e_pairs(ctx):
         spec = Gen(rng, W, sharded=False).spec()
         spec["yaml"] = 0
@@ -1141,8 +1546,11 @@ def check_e2e(ctx: Ctx, res: Result, with_model: bool):
         c_get.append((inp, val(gets)))
         c_wf.append((inp, val(True)))
         meta.append(spec)
+        if GEN_OK["ok"]:
+            c_gen.append(gen_views_case(md, uid, list(reversed(queries)), False))
     if not with_model:
         return
+    run_gen(res, CORRESPONDENCES[11], "C07_ge2e", "obs_views_gen", c_gen, GEN_VIEWS_TY, meta, shard=12)
     ty = "Z * gman * list (Z * list path)"
     for name, tag, fn, cases in (("e2e:take-metadata/get_manifest_for_rank~model", "C07_e2e", GET_FN, c_get),
                                  ("wf:gathered-manifest~wf_globalb", "C07_e2ewf", WF_FN, c_wf)):
@@ -1178,9 +1586,13 @@ def check_legacy_witness(res: Result):
 
 def correspond(ctx: Ctx) -> Result:
     res = Result(rule=RULE)
+    build_gen_model(res)
     check_legacy_witness(res)
     check_synthetic(ctx, res, with_model=True)
+    check_generated_extra(ctx, res)
     check_e2e(ctx, res, with_model=True)
+    res.dist["g.query_outcome"] = {k: v for k, v in sorted(GEN_STATS.items())}
+    GEN_STATS.clear()
     return res
 
 
@@ -1204,8 +1616,13 @@ def replay(ctx: Ctx, data):
 
 
 MANIFEST = {
-    "level_text": ("Machine-checked proof (Coq 8.16.1) over an executable model of get_manifest_for_rank (both branches), "
-                   "_remove_entry, the merged sharded entries and handle_sharded_tensor_elasticity: for every world size W >= 1, "
+    "level_text": ("Machine-checked proof (Coq 8.16.1) about the functions of manifest_ops.py and the predicates of manifest_utils.py "
+                   "REGENERATED STATEMENT BY STATEMENT from the current source on every run (get_manifest_for_rank, "
+                   "_get_rank_to_manifest incl. the deep copy, _get_manifest_for_existing_rank, _get_manifest_for_new_rank, "
+                   "_remove_entry, the merged sharded / DTensor entries, handle_sharded_tensor_elasticity; Python dicts as "
+                   "insertion-ordered association lists, entry objects in a heap): (i) computing any sequence of views from one "
+                   "metadata object leaves the metadata's entry objects unchanged (no assumption on the metadata); (ii) on "
+                   "well-formed metadata they compute exactly the hand model, for which: for every world size W >= 1, "
                    "every restoring rank index r' (r' < W and r' >= W) and every well-formed gathered manifest (any nesting "
                    "depth, any mix of replicated / private / sharded leaves, any per-rank key differences): every replicated "
                    "leaf is in r''s local manifest with its saved entry; a private leaf is visible exactly to the rank index "
@@ -1213,14 +1630,22 @@ MANIFEST = {
                    "offsets) and after elasticity is present iff requested; containers of an existing rank are unchanged and a "
                    "new rank receives rank 0's containers with exactly the keys of the withheld leaves deleted, order kept; the "
                    "removed key is the one flatten used for the path (keys with '/', '%', bool, int), while the code before "
-                   "commit 489d382 is refuted by a witness. The model is tied to the code on every run by differential "
-                   "execution of the real manifest operations (through the real flatten / consolidate_replicated_entries / "
-                   "inflate) and end to end by real take / restore in a simulated multi-rank world."),
-    "level_note": ("Trusted: Coq kernel + VM; hand-written model coq/model/ManifestOps.v and the differential harness; the "
-                   "simulated world (ranks as threads). DTensor entries and the root-only knob are not modelled; sharded "
-                   "tensors are exercised at the manifest level only (data path: C08). Theorems are closed under the global "
-                   "context (no axioms)."),
-    "technique": "Coq proof (assoc-list dictionary lemmas, fold invariants, insertion-sort permutation) + vm_compute "
-                 "correspondence and direct oracle on the real manifest operations and on take/restore in a simulated world",
+                   "commit 489d382 is refuted by a witness. Each of these theorems is restated over the generated functions "
+                   "(C07_generated_*). Generated terms and hand model are both compared with the real code on every run "
+                   "(real manifest operations through the real flatten / consolidate_replicated_entries / inflate; sequences "
+                   "of views on one metadata object; DTensor and malformed metadata; end to end real take / restore in a "
+                   "simulated multi-rank world)."),
+    "level_note": ("Trusted: Coq kernel + VM; the translator gen_manifest_ops.py and its target vocabulary model/ManifestPy.v "
+                   "(dict / heap / deepcopy semantics, validated by the correspondences); the abstraction absG/absD/absE; the "
+                   "differential harness; the simulated world (ranks as threads). The hand model is now a specification, not "
+                   "part of the tie to the code. Theorems through the hand model assume no DTensorEntry and the root-only knob "
+                   "off (both are translated and exercised, not proved about); numpy mesh slicing and _ReplicatedShards are "
+                   "hand-modelled with pinned source. Sharded tensors are exercised at the manifest level only (data path: C08). "
+                   "All theorems are closed under the global context (no axioms)."),
+    "technique": "Python ast -> Gallina translation of whole functions (state-and-exception monad over a heap of entry objects) + "
+                 "Coq proof: a type-directed frame logic walked automatically over the generated statements (non-mutation), a "
+                 "simulation proof generated functions = hand model (loop invariants, assoc-list lemmas, insertion-sort "
+                 "permutation) + vm_compute correspondence and direct oracle on the real manifest operations and on "
+                 "take/restore in a simulated world",
     "design_ref": "DESIGN.md section 5, C07",
 }
